@@ -144,10 +144,10 @@ Print Assumptions C20_reopen_idempotent.
    the persisted root untouched; after a crash New accepts the stale journal and stops
    with "gap between state and state history" (class 1) *)
 Theorem C20_recover_stale_journal_refuted :
-  exists c ops, jc_legacy_recover c = true /\
+  exists c ops, jc_recover c = 0 /\
                 run (init_world c false 0) ops = None /\ ex_stale_check = true.
 Proof.
-  exists (mkJCfg 0 false 1 true), ex_stale_history.
+  exists (mkJCfg 0 false 1 0), ex_stale_history.
   split; [reflexivity|]. split; vm_compute; reflexivity.
 Qed.
 Print Assumptions C20_recover_stale_journal_refuted.
